@@ -278,11 +278,16 @@ def calls_reach(n1: str, q: str) -> bool:
 OTHER_CODE = "while q:\n    q = q - 1\nr = 1 <= 2\n"
 
 
+BAD_CODE = "y = ("
+
+
 def default_root(s0: bool, s1: bool, s2: bool, k0: bool, k1: bool, k2: bool, k3: bool, step0: bool, step1: bool) -> bool:
     """
     History on ONE report: a default check on the submission, then (optionally) a helper parses OTHER code through
     student_code= (parse_program / find_matches on a reference solution), then ensure_ast / prevent_ast / find_operation
-    WITHOUT root= : they still describe the submission, not the other code.
+    WITHOUT root= : they still describe the submission, not the other code. Partition "bad,first_check,verified": the
+    other code does not parse; the submission was already looked at before the helper ran; the Source tool parsed the
+    submission first (CAIT then takes over its tree).
 
     pre: True
     post: _
@@ -290,6 +295,7 @@ def default_root(s0: bool, s1: bool, s2: bool, k0: bool, k1: bool, k2: bool, k3:
     if tick():
         return True
     from pedal.cait.cait_api import parse_program, find_matches
+    bad, first_check, verified = [x == "1" for x in (PART or "0,1,0").split(",")]
     k = bits(k0, k1, k2, k3)
     if k >= len(NODE_NAMES):
         return True
@@ -299,14 +305,24 @@ def default_root(s0: bool, s1: bool, s2: bool, k0: bool, k1: bool, k2: bool, k3:
     name = NODE_NAMES[k]
     tree = ast.parse(code)
     count = sum(1 for n in ast.walk(tree) if type(n).__name__ == name)
-    first = S.prevent_ast(name, report=r)
-    if bool(first) != (count > 0):
-        return False
+    if verified:
+        from pedal.source import verify
+        verify(report=r)
+    if first_check:
+        first = S.prevent_ast(name, report=r)
+        if bool(first) != (count > 0):
+            return False
+    other = BAD_CODE if bad else OTHER_CODE
     if step0:
-        parse_program(OTHER_CODE, report=r)
+        parse_program(other, report=r)
     if step1:
-        find_matches("___ = ___", OTHER_CODE, report=r)
+        if find_matches("___ = ___", other, report=r) and bad:
+            return False
     e = S.ensure_ast(name, report=r)
     p = S.prevent_ast(name, report=r)
     ops = find_operation("<=", report=r)
-    return bool(e) == (count < 1) and bool(p) == (count > 0) and len(ops) == 1
+    from pedal.cait.cait_api import find_asts
+    nodes = find_asts(name, report=r)
+    again = find_matches("t = ___ <= ___", report=r)          # the submission's own last statement
+    return (bool(e) == (count < 1) and bool(p) == (count > 0) and len(ops) == 1 and len(nodes) == count
+            and len(again) == 1)
